@@ -79,6 +79,8 @@ pub struct StrGen {
 const NUMBERS: &[&str] = &[
     "0", "1", "0.5", "1.0", "0.9", ".5", "5.", "1.5", "-1", "+1", "1e5", "..", "0.0.0", "00000.5", "2", "0.99999999999999999999", "1.0000000000000000000001",
     "9999999999999999999999999999999999999999", "0.", ".", "", "१", "0x1", "1_0", "NaN", "inf", "-0", "1e-400", "1e400",
+    "1.0000000002", "1.000000001", "1.0000000000000002", "1.00000000000000000001", "0.99999999999999999999", "1.0000001", "0.00000000001",
+    "0.000000000000000000000000000000000000000000000000000000000000000000001", "1.00000000000000000000000000000000000000000000000000000000000000000",
 ];
 
 impl StrGen {
@@ -354,6 +356,7 @@ pub fn random_unicode_char(rng: &mut Rng) -> char {
         '\u{3000}', '\u{feff}', '\u{200b}', '\u{200d}', '\u{301}', '\u{20dd}', '\u{5d0}', '\u{627}', '\u{202e}', '\u{1f2ff}', '\u{1f300}', '\u{1f2fe}',
         '\u{10ffff}', '\u{e000}', '\u{fffd}', '\u{ff10}', '\u{660}', '\u{2460}', 'Ⅷ', '½', '\\', '{', '}', '"', '\'', '%', '$', '#', '~', '`', '=',
         '<', '>', '|', '/', ':', ';', ',', '(', ')', '[', ']', '&', '*', '^', '+', '-', '_', '!', '?', '@', '.', '预', '算', '真', '值', '某', '是',
+        '\u{e0001}', '\u{e0100}', '\u{e007f}', '\u{e0fff}', '充', '堅', 'Ⅰ', '２', '²', '①',
     ];
     match rng.below(4) {
         0 => {
